@@ -7,12 +7,14 @@ input, so flipping never changes the cache identity).
   {"op":"flip","kind":k,"value":"ok"|"fail"}
   {"op":"submit","kind":k,"worker":"debug"|"cf","api":"call"|"submitter","rerun":b}
 
-kinds: py_raise (raises ValueError("boom-<token>")), sh_exit (exit 3, "boom-<token>" on stderr),
+kinds: py_raise (raises ValueError("boom-<token>")), sh_exit ("boom-<token>" on stderr, then the
+command fails the way the case field "sh_fail" says: ["exit", n] = exit status n, ["signal", n] =
+killed by signal n, i.e. a negative return code; default ["exit", 3]),
 wf_node (3-node workflow whose middle node is py_raise), and python tasks with two mandatory
 outputs (a, b) whose failing return value is {"a":1} / {} / (1,2,3) / (1,) / None.
 api "call" = Task.__call__; "submitter" = Submitter(...)(task, raise_errors=False).
-Optional "inject": "poll-race" (witnesses only): vlib/inject/cachehist.poll_race makes one legal
-timing of the cf worker deterministic.
+Optional "inject": "poll-race" | "slow-start" (witnesses only): vlib/inject/cachehist.poll_race /
+slow_start make one legal timing of the cf worker deterministic.
 """
 from __future__ import annotations
 
@@ -25,7 +27,8 @@ LEVEL = "exploration"
 DESIGN_REF = "5/C13"
 TECHNIQUE = "generated submit/flip histories vs an explicit model of what the cache may hold"
 RULE = (
-    "case = 1-2 task kinds out of 8 (python raise, shell non-zero exit, workflow with a failing "
+    "case = 1-2 task kinds out of 8 (python raise, shell command failing with a drawn exit status "
+    "1|3|127|255 or killed by a drawn signal TERM|KILL|USR1, workflow with a failing "
     "node, python returning dict-with-missing-key / empty dict / too-long tuple / too-short tuple / "
     "None for two mandatory outputs) and a history of 2..8 (thorough ..10) operations (random, "
     "or the scenario fail-fix-again-break-rerun-again with random omissions) "
@@ -52,11 +55,12 @@ TEXT_KINDS = ("py_raise", "sh_exit", "wf_node")
 MISSING_KINDS = ("dict_missing", "dict_empty", "tuple_long", "tuple_short", "none_for_two")
 
 SIG_STALE = "stale-errored-state-of-cached-failure-taken-for-the-current-run"
+SIG_STALE_CF = "errored-result-of-earlier-run-read-by-status-polling-before-the-pool-reexecutes:cf"
 SIG_POLL = "cf-workflow-aborted-by-status-polling-before-node-error-is-collected"
 SIG_DICT = "python-dict-return-missing-key-accepted-as-success:NOTHING-output"
 
 
-def _build(kind, d, inject=None):
+def _build(kind, d, inject=None, sh_fail=("exit", 3)):
     from vlib import tasks_cachehist as T
 
     flag, log, token = str(d / "flag"), str(d / "log"), f"tok-{kind}"
@@ -65,7 +69,8 @@ def _build(kind, d, inject=None):
         t = T.RaiseIf(flag=flag, log=log, token=token)
     elif kind == "sh_exit":
         (d / "s.sh").write_text(T.SH_SCRIPT)
-        t = T.ShFail(script=str(d / "s.sh"), flag=flag, log=log, token=token)
+        t = T.ShFail(script=str(d / "s.sh"), flag=flag, log=log, token=token,
+                     how=f"{sh_fail[0]}:{sh_fail[1]}")
     elif kind == "wf_node" and inject == "poll-race":
         t = T.FailWFSlow(flag=flag, log=log, prelog=str(d / "prelog"), token=token, gate=str(d))
     elif kind == "wf_node":
@@ -108,6 +113,13 @@ def _submit(task, root, op, inject=None):
 
         with poll_race(task.gate, "r"):
             return _submit(task, root, dict(op, n_procs=2))
+    if inject == "slow-start" and op["worker"] == "cf":
+        import os
+
+        from vlib.inject.cachehist import slow_start
+
+        with slow_start(os.path.dirname(task.flag)):
+            return _submit(task, root, op)
     from pydra.engine.submitter import Submitter
 
     kw = dict(n_procs=op.get("n_procs", 1)) if op["worker"] == "cf" else {}
@@ -152,7 +164,7 @@ def check_case(case):
         for k in case["kinds"]:
             dirs[k] = base / k
             dirs[k].mkdir()
-            tasks[k] = _build(k, dirs[k], case.get("inject"))
+            tasks[k] = _build(k, dirs[k], case.get("inject"), case.get("sh_fail", ["exit", 3]))
         model = FailModel(case["kinds"])
         desynced = set()
         pre_seen = {k: 0 for k in case["kinds"]}
@@ -211,7 +223,12 @@ def check_case(case):
                     inproc = op["worker"] == "debug" or k == "wf_node"
                     norecord = any(s in obs["report"] for s in
                                    ("NOT RETRIEVED", "UNKNOWN-TIME", "<no recorded error>"))
-                    if before == "failed" and inproc and norecord and executed == 1:
+                    if (before == "failed" and k == "wf_node" and op["worker"] == "cf" and norecord
+                            and executed == 1):
+                        # timing dependent (F-C13-4): the submitter polls the node's directory
+                        # while it still holds the errored result of the earlier run
+                        add(SIG_STALE_CF, obs["report"][-300:], _expected_success(k))
+                    elif before == "failed" and inproc and norecord and executed == 1:
                         add(SIG_STALE, obs["report"][-300:], _expected_success(k))
                     else:
                         add(f"success-reported-as-failure:{k}", obs["report"][-400:],
@@ -252,6 +269,8 @@ def check_case(case):
 def describe(case):
     m = FailModel(case["kinds"])
     labels = set("kind_" + k for k in case["kinds"])
+    if "sh_exit" in case["kinds"]:
+        labels.add("sh_fail_" + case.get("sh_fail", ["exit", 3])[0])
     failed_before = set()
     nontrivial = False
     for op in case["ops"]:
